@@ -6,6 +6,12 @@ ALL = ["C%02d" % i for i in range(1, 20)]
 
 # id -> (technique, level text, level note, design ref)
 CHECKS = {
+ "C01": ("bounded-exhaustive enumeration of program families (index->program bijections) run on the real compiler+VM against an independent reference interpreter",
+         "Every program of the families F-expr (all depth-1 expressions over a 16-leaf operand alphabet, depth 2 over one representative per distinct result), F-stmt (15 contexts x ordered pairs, thorough: triples, of a ~65-statement alphabet, epilogue logging every visible variable), F-nest, F-call, F-limits and the dedicated inline-Array family is compiled and run for real; result kind, globals by name and the host-call log with deep-converted arguments must equal the outcome of a tree-walking reference interpreter with named variables. Failures are delta-debugged to a canonical minimal program which is the finding key.",
+         "Program shapes bounded by the families; behaviour the sources leave undefined (integer overflow, NaN, out-of-range Get, arity mismatches, reads of never-assigned globals after another assignment) is executed but not compared; open findings listed in KNOWN_FINDINGS.txt (inline Array operands, value-producing statements in loops).", "DESIGN.md §4 C01, §3"),
+ "C04": ("bounded-exhaustive enumeration of module trees / programs / host configurations in isolated worker processes with watchdogs; verdict = compile and run return",
+         "Compile half: names x imports x positions, submodule depth 0..70, 16 card kinds nested up to depth 60 (thorough 120), locals 0..260, globals 0..64/600, arities x supplied arguments x parameter naming, closure nesting, 27 parent kinds x slot x 18 child classes (not restricted to well-scoped input). Run half: every C01 family (including the cases C01 does not compare) and 14 exhaustion programs x sizes x swept value-stack / call-stack sizes, memory limits and budgets, plus self-containing tables. A panic, abort, signal or watchdog expiry of the isolated worker is the violation; the dying worker is re-run in trace mode and resumed behind the crashing case so every crashing case of a unit is pinned.",
+         "Only compiled well-scoped programs are run; stack size 0 is excluded (asserted by the constructor); cyclic tables in Eq/Hash/Ord are open findings.", "DESIGN.md §4 C04"),
  "C12": ("explicit-state BFS over operation histories of the real CaoHashMap (3 allocators) + exhaustive single-allocation-failure enumeration, BTreeMap oracle, drop ledger",
          "Every history of insert/remove/entry/get_mut/reserve/clear/clone (hinted forms included) up to the stated depth over an 8-key alphabet chosen with the real hasher (wrapping collision chains, home-bucket collisions, a key hashing to the reserved value 0) is executed on the real map; every observer is compared with a reference map in every distinct concrete state; every allocation index is made to fail once. Bounded-exhaustive is the right level: the defects of this structure are sequence defects (probe chains, growth steps, failed growth) that appear within a handful of operations.",
          "Bounded depth and an 8-key alphabet; values {1,2}; clone under allocation failure excluded (Clone cannot return an error).", "DESIGN.md §4 C12"),
